@@ -121,7 +121,7 @@ class IntroduceFreshVariable:
 
     def global_mutations(self, node, input_):
         varname = Node(f'x{node.id}__fresh')
-        if is_var(varname):
+        if is_declared_symbol(varname):
             return []
         var = Node('declare-const', varname, get_sort(node))
         return [Simplification({node.id: varname}, [var])]
@@ -318,14 +318,14 @@ class SimplifySymbolNames:
         symbol."""
         if is_piped_symbol(symbol):
             for s in self.__simpler(get_piped_symbol(symbol)):
-                if not is_var(Node('|' + s + '|')):
+                if not is_declared_symbol(Node('|' + s + '|')):
                     yield Simplification({symbol: Node('|' + s + '|')}, [])
         else:
             for s in self.__simpler(symbol):
                 # a numeral (or another constant) is not a symbol name,
                 # nor is a reserved word ('_' would be taken for a variable
                 # inside every indexed identifier)
-                if not is_var(Node(s)) and not is_const(
+                if not is_declared_symbol(Node(s)) and not is_const(
                         Node(s)) and s not in self.__reserved:
                     yield Simplification({symbol: Node(s)}, [])
 
